@@ -1,0 +1,16 @@
+//go:build verif
+
+package color
+
+// Contracts for govc (see /verif/DESIGN.md, C14 / C02). Comment-only file.
+
+//@ func Write
+//@   requires w != nil && f != nil
+//@   modifies ghost sw_calls(w)
+//@   ensures sw_calls(w) >= old(sw_calls(w))
+//@ func Wrap
+//@   pure
+//@ func StrLen
+//@   pure
+//@   ensures 0 <= ret && ret <= len(s)
+//@   loop 1 invariant 0 <= ret && ret <= rangepos() && rangepos() <= len(s)
